@@ -315,10 +315,26 @@ class Goebner:
         # Dummy,
         return None
 
+    @staticmethod
+    def _as_sum(agg: AST) -> AST:
+        """#sum+ ignores negative weights, it can only be combined arithmetically as a #sum
+        if all its weights are positive numbers"""
+        if agg.function != AggregateFunction.SumPlus:
+            return agg
+        for elem in agg.elements:
+            if not (
+                elem.terms
+                and elem.terms[0].ast_type == ASTType.SymbolicTerm
+                and elem.terms[0].symbol.type == SymbolType.Number
+                and elem.terms[0].symbol.number > 0
+            ):
+                raise SympyApi("Cannot do arithmetic with a #sum+ aggregate that may have negative weights, skipping.")
+        return agg.update(function=AggregateFunction.Sum)
+
     def new_sum(self, asts: list[AST]) -> AST:
         """given a list of terms and aggregates, create the sum using clingo AST operations"""
         assert len(asts) >= 2
-        aggs = [x for x in asts if x.ast_type == ASTType.BodyAggregate]
+        aggs = [self._as_sum(x) for x in asts if x.ast_type == ASTType.BodyAggregate]
         if aggs:  # use next and iteration
             rest = [x for x in asts if x.ast_type != ASTType.BodyAggregate]
             collector = aggs[0]
@@ -372,7 +388,7 @@ class Goebner:
         if aggs:  # use next and iteration
             if len(aggs) > 1:
                 raise SympyApi("Cannot express multiplication of aggregates, skipping.")
-            collector = aggs[0]
+            collector = self._as_sum(aggs[0])
             if collector.function in (AggregateFunction.Min, AggregateFunction.Max):
                 raise SympyApi("Cannot express multiplication with min/max aggregate, skipping.")
             rest = [x for x in asts if x.ast_type != ASTType.BodyAggregate]
